@@ -669,8 +669,9 @@ func (c *Ctx) accessPathD(v ssa.Value, fr *Frame, d int) string {
 // constant evaluator over partial environments
 
 type envKey struct {
-	v   ssa.Value
-	idx int // -1 for the value itself, else tuple index
+	v    ssa.Value
+	idx  int    // -1 for the value itself, else tuple index
+	cell string // non-empty: a tracked memory cell named by its access path
 }
 
 type Env map[envKey]constant.Value
@@ -686,6 +687,10 @@ func (e Env) clone() Env {
 func (e Env) String() string {
 	var ss []string
 	for k, v := range e {
+		if k.cell != "" {
+			ss = append(ss, fmt.Sprintf("[%s]=%s", k.cell, v.ExactString()))
+			continue
+		}
 		ss = append(ss, fmt.Sprintf("%p/%d=%s", k.v, k.idx, v.ExactString()))
 	}
 	sort.Strings(ss)
@@ -695,6 +700,9 @@ func (e Env) String() string {
 type Evaluator struct {
 	// Assume gives values to leaves (parameters, loads) the rule wants to fix.
 	Assume func(v ssa.Value, fr *Frame) (constant.Value, bool)
+	// Cell names the tracked memory cell an address denotes (loads read the
+	// environment, stores performed by the typestate engine update it).
+	Cell func(addr ssa.Value, fr *Frame) (string, bool)
 }
 
 func (ev *Evaluator) eval(v ssa.Value, env Env, fr *Frame) (constant.Value, bool) {
@@ -706,7 +714,7 @@ func (ev *Evaluator) evalD(v ssa.Value, env Env, fr *Frame, d int) (constant.Val
 		return nil, false
 	}
 	if env != nil {
-		if k, ok := env[envKey{v, -1}]; ok {
+		if k, ok := env[envKey{v, -1, ""}]; ok {
 			return k, true
 		}
 	}
@@ -730,7 +738,7 @@ func (ev *Evaluator) evalD(v ssa.Value, env Env, fr *Frame, d int) (constant.Val
 		return nil, false
 	case *ssa.Extract:
 		if env != nil {
-			if k, ok := env[envKey{x.Tuple, x.Index}]; ok {
+			if k, ok := env[envKey{x.Tuple, x.Index, ""}]; ok {
 				return k, true
 			}
 		}
@@ -758,6 +766,14 @@ func (ev *Evaluator) evalD(v ssa.Value, env Env, fr *Frame, d int) (constant.Val
 			}
 			return convertConst(constant.UnaryOp(token.SUB, k, 0), x.Type())
 		case token.MUL:
+			if ev != nil && ev.Cell != nil && env != nil {
+				if name, ok := ev.Cell(x.X, fr); ok {
+					if k, ok := env[envKey{nil, 0, name}]; ok {
+						return k, true
+					}
+					return nil, false
+				}
+			}
 			// load of a local spill with one store
 			if a, ok := x.X.(*ssa.Alloc); ok {
 				sts := storesTo(a)
